@@ -439,7 +439,6 @@ func scalarCellsOf(op *ssa.Function) []Cell {
 	return out
 }
 
-
 // cellOfView is cellOf for an address inside op's flattened view: the address may be a field
 // of a helper's receiver or parameter that is, at every splice of the helper, the captured
 // variable or state object (`attempts.begin()` with `attempts` captured by the literal).
@@ -490,4 +489,120 @@ func cellLoadView(op *ssa.Function, v ssa.Value) (Cell, bool) {
 		return Cell{}, false
 	}
 	return cellOfView(op, ld.X)
+}
+
+// ---------------------------------------------------------------- state structs
+
+// A state struct is an unexported struct type of the module whose values only ever live in
+// locals (a per-call object that carries what a multi-step operation has accumulated: the
+// handshake's messages and keys, the exchange's command and context). A field of such a type
+// with a single writer in the whole module holds, wherever it is read, the value that writer
+// stored (in the same call of the operation) — reading it is reading that value.
+
+func stateStructField(f *types.Var) bool {
+	if f == nil || f.Exported() || f.Pkg() == nil || !(f.Pkg().Path() == modPath || strings.HasPrefix(f.Pkg().Path(), modPath+"/")) {
+		return false
+	}
+	return true
+}
+
+func isStateStructType(t types.Type) bool {
+	if p, ok := t.Underlying().(*types.Pointer); ok {
+		t = p.Elem()
+	}
+	n, ok := t.(*types.Named)
+	if !ok || n.Obj().Exported() || n.Obj().Pkg() == nil {
+		return false
+	}
+	if _, isStruct := n.Underlying().(*types.Struct); !isStruct {
+		return false
+	}
+	pp := n.Obj().Pkg().Path()
+	return pp == modPath || strings.HasPrefix(pp, modPath+"/")
+}
+
+// canonValue follows reads of single-writer fields of state structs to the value stored:
+// `h.openSessionRsp` is the response the Open Session stage stored, whichever stage reads it.
+func canonValue(v ssa.Value) ssa.Value {
+	for i := 0; i < 8; i++ {
+		switch x := v.(type) {
+		case *ssa.UnOp:
+			if x.Op != token.MUL {
+				return v
+			}
+			fa, ok := x.X.(*ssa.FieldAddr)
+			if !ok {
+				return v
+			}
+			f := structField(fa.X.Type(), fa.Field)
+			if !stateStructField(f) || !isStateStructType(fa.X.Type()) {
+				return v
+			}
+			sts := fieldStores[f]
+			if len(sts) != 1 {
+				return v
+			}
+			v = sts[0].Val
+			continue
+		case *ssa.Extract:
+			// a pointer result of an unexported wrapper that can only hand back one value (its
+			// other returns are nil): `rsp, err := s.proposeAndConfirm(…)` is the response the
+			// exchange inside the wrapper returned
+			call, ok := x.Tuple.(*ssa.Call)
+			if !ok {
+				return v
+			}
+			if _, isPtr := x.Type().Underlying().(*types.Pointer); !isPtr {
+				return v
+			}
+			f := call.Call.StaticCallee()
+			if f == nil || f.Blocks == nil || f.Object() == nil || f.Object().Exported() || f.Pkg == nil || !(f.Pkg.Pkg.Path() == modPath || strings.HasPrefix(f.Pkg.Pkg.Path(), modPath+"/")) {
+				return v
+			}
+			var only ssa.Value
+			for _, ret := range returnsOf(f) {
+				if x.Index >= len(ret.Results) {
+					return v
+				}
+				rv := ret.Results[x.Index]
+				if isNilConst(rv) {
+					continue
+				}
+				if only != nil && only != rv {
+					return v
+				}
+				only = rv
+			}
+			if only == nil {
+				return v
+			}
+			if _, isParam := only.(*ssa.Parameter); isParam {
+				return v
+			}
+			v = only
+			continue
+		case *ssa.Field:
+			f := structField(x.X.Type(), x.Field)
+			if !stateStructField(f) || !isStateStructType(x.X.Type()) {
+				return v
+			}
+			sts := fieldStores[f]
+			if len(sts) != 1 {
+				return v
+			}
+			v = sts[0].Val
+			continue
+		}
+		return v
+	}
+	return v
+}
+
+// canonEq: the two values denote the same thing once reads of single-writer state fields and
+// results of single-result wrappers are followed.
+func canonEq(a, b ssa.Value) bool {
+	if a == nil || b == nil {
+		return false
+	}
+	return a == b || canonValue(a) == canonValue(b)
 }
